@@ -412,6 +412,28 @@ class Interp:
                     self.ev(st.value, env)
             elif isinstance(st, ast.Pass):
                 continue
+            elif isinstance(st, ast.FunctionDef) and not st.decorator_list:
+                # a local helper: called with the enclosing names visible (read-only closure)
+                def closure(*a, _st=st, _env=env, **k):
+                    inner = dict(_env)
+                    names = [p.arg for p in _st.args.args]
+                    if len(a) > len(names):
+                        raise ShapeError(f'{_st.name}: too many arguments')
+                    inner.update(zip(names, a))
+                    inner.update(k)
+                    missing = [p for p in names[len(a):] if p not in k]
+                    for p, d in zip(reversed(names), reversed(_st.args.defaults)):
+                        if p in missing:
+                            inner[p] = self.ev(d, _env)
+                            missing.remove(p)
+                    if missing:
+                        raise ShapeError(f'{_st.name}: missing argument {missing[0]}')
+                    try:
+                        self.run(_st.body, inner)
+                    except _Return as r:
+                        return r.value
+                    return None
+                env[st.name] = closure
             elif isinstance(st, ast.Return):
                 raise _Return(self.ev(st.value, env) if st.value is not None else None)
             elif isinstance(st, ast.Assign):
